@@ -11,13 +11,14 @@ import os
 import shutil
 import tempfile
 
-from .. import cover, itpspec, ref
+from .. import carrier, cover, itpspec, ref
 
 LEVEL = 'exploration'
 JOBS = {'quick': 2, 'thorough': 16}
-REQUIRED_MONITORS = ('tokens_original_vs_written', 'second_round_trip', 'topology_original_vs_written', 'written_onto_source', 'written_through_copy')
+REQUIRED_MONITORS = ('library_view_of_written_file', 'tokens_original_vs_written', 'second_round_trip', 'topology_original_vs_written', 'written_onto_source', 'written_through_copy')
 REQUIRED_CLASSES = ('shipped', 'repeated-section', 'trailing:empty', 'trailing:multiple', 'trailing:hash', 'trailing:multiple-last-empty',
-                    'header-text', 'decorated', 'no-final-newline', 'shipped-with-repeated-section')
+                    'header-text', 'decorated', 'no-final-newline', 'shipped-with-repeated-section', 'line-endings:dos',
+                    'carrier:handle', 'carrier:handle-newline-untranslated', 'carrier:handle-relative-then-chdir', 'carrier:relative-path')
 RULE = ('all shipped topologies + generated topology texts (section order, repeated section names, trailing comment '
         'styles none/single/empty/multiple/#-leading/no-blank, comment-only, blank and preprocessor lines, header text, '
         'missing final newline). Non-trivial: the file has at least one comment or preprocessor line or a repeated '
@@ -102,6 +103,14 @@ def classify_item_diff(x, y, la, lb):
     return 'preprocessor-line-changed'
 
 
+def _decoy():
+    p = os.path.join(_tmp['dir'], f'decoy{os.getpid()}.itp')
+    if not os.path.exists(p):
+        with open(p, 'w') as fh:
+            fh.write('; a decoy\n[ moleculetype ]\nDECOY 1\n\n[ atoms ]\n1 X 1 DEC D1 1 0.0\n')
+    return p
+
+
 def roundtrip(ctx, path, label, truth=None, classes=()):
     from gaddlemaps.parsers import ItpFile, read_topology
     w = {'file': label, 'classes': sorted(classes)}
@@ -109,7 +118,11 @@ def roundtrip(ctx, path, label, truth=None, classes=()):
     out1 = os.path.join(_tmp['dir'], f'o1_{os.getpid()}.itp')
     out2 = os.path.join(_tmp['dir'], f'o2_{os.getpid()}.itp')
     try:
-        ItpFile(path).write(out1)
+        # the file reaches the reader as a path, a relative name or an open handle (see carrier.py)
+        kind = carrier.next_kind(ctx)
+        w['carrier'] = kind
+        with carrier.carried(path, kind, decoy=_decoy()) as f:
+            ItpFile(f).write(out1)
     except Exception as exc:  # noqa
         ctx.violation(f'read-or-write-raises:{type(exc).__name__}', str(exc)[:200], witness=w)
         return
@@ -124,6 +137,24 @@ def roundtrip(ctx, path, label, truth=None, classes=()):
     if d:
         ctx.violation(f'roundtrip-loses:{d[0]}:{rep}', f'{label}: {d[1]}',
                       witness=dict(w, original_head=open(path).read()[:1200], written_head=open(out1).read()[:1200]))
+    # what the library itself holds after re-reading the written file, through the same kind of carrier: the same section
+    # names in order of first appearance, the same content lines token by token
+    try:
+        with carrier.carried(out1, kind, decoy=_decoy()) as f:
+            held = ItpFile(f)
+        got_secs = [(name, [tuple(ln.content.split()) for ln in sec.lines if getattr(ln, 'content', '') and not str(ln).lstrip().startswith('#')])
+                    for name, sec in held.items() if name != 'header']
+    except Exception as exc:  # noqa
+        ctx.violation(f'reparse-raises:{type(exc).__name__}', f'{label} ({kind}): {str(exc)[:200]}', witness=w)
+        return
+    ctx.monitor('library_view_of_written_file')
+    want_secs = [(name, [it[1] for it in items if it[0] == 'content']) for name, items in orig[1]]
+    if [n for n, _ in got_secs] != [n for n, _ in want_secs]:
+        ctx.violation('reread-sections-differ', f'{label} ({kind}): sections held after re-reading {[n for n, _ in got_secs][:8]}, in the file '
+                      f'{[n for n, _ in want_secs][:8]}', witness=w)
+    elif got_secs != want_secs:
+        bad = next(n for (n, a), (_, b) in zip(got_secs, want_secs) if a != b)
+        ctx.violation('reread-content-differs', f'{label} ({kind}): content lines of section {bad!r} differ after re-reading', witness=w)
     # the library's own re-parse
     try:
         t0 = read_topology(path)
@@ -202,8 +233,11 @@ def run_case(ctx, case):
     text, truth = itpspec.gen_top(rng, n=int(rng.integers(1, 30)), repeated=(i % 3 == 0), decorate=(i % 4 != 0),
                                   trailing=('plain', 'single', 'empty', 'multiple', 'hash', 'nospace', 'multiple-last-empty', 'semicolons-only', 'hash-nospace'))
     path = os.path.join(_tmp['dir'], f'g{os.getpid()}.itp')
-    with open(path, 'w') as fh:
+    dos = (i % 5 == 2)
+    with open(path, 'w', newline='\r\n' if dos else None) as fh:          # every fifth file with DOS line endings
         fh.write(text)
+    if dos:
+        ctx.hit('line-endings:dos')
     ctx.count('evaluations')
     for c in truth['classes']:
         ctx.hit('repeated-section' if c.startswith('repeated-section:') else c)
